@@ -633,11 +633,14 @@ var (
 
 const retCap = 96
 
+// RetainEnabled is switched off inside bulk enumerations (millions of calls), where retaining is pointless.
+var RetainEnabled = true
+
 // Retain remembers a []byte the library returned (the slice itself) together
 // with a snapshot. Results belong to the caller: whatever the library does in
 // later calls must not change them. CheckRetained compares.
 func Retain(desc string, b []byte) {
-	if len(b) == 0 {
+	if len(b) == 0 || !RetainEnabled {
 		return
 	}
 	retMu.Lock()
@@ -650,7 +653,7 @@ func Retain(desc string, b []byte) {
 
 // RetainString does the same for a returned string (which may alias pooled memory through an unsafe conversion).
 func RetainString(desc string, s string) {
-	if len(s) == 0 {
+	if len(s) == 0 || !RetainEnabled {
 		return
 	}
 	retMu.Lock()
